@@ -124,7 +124,7 @@ PLANS["C05"] = {
     "level_text": ("exploration: random and exhaustively enumerated operation histories run against the real vectors while a Vec<bool>/Vec<u64> model checks content, the tail invariant and canonical "
                    "form after every single operation"),
     "level_note": "trusts the Vec-based models; capacity is deliberately not checked; only in-contract arguments are used (set below len, widths <= 64)",
-    "technique": "runtime monitoring: history + executable sequential model, invariant checked at every step",
+    "technique": "runtime monitoring: history + executable sequential model, invariant checked at every step + coverage-guided legs (libFuzzer with AddressSanitizer / overflow checks) driving the same oracle",
     "assumptions": ["histories are bounded (<= 200 steps, <= 520 bits / 130 items)"],
 }
 PLANS["C05"]["require"]["thorough"] = PLANS["C05"]["require"]["quick"]
@@ -147,7 +147,7 @@ PLANS["C02"] = {
     "level_text": ("exploration: the real SparseVector is built through every builder route and queried while a sorted-list model (binary search, cross-checked against a Vec<bool> model) checks every answer; "
                    "the generator is steered so that every low width 1..=63 and both phases of select_zero are reached, which the run proves from the serialized width field and probes"),
     "level_note": "trusts the sorted-list model; universes are sampled, tiny m/n with huge n is bounded by memory exactly as the quantifier says",
-    "technique": "runtime monitoring: online reference-model oracle, parameter-regime-directed generation, Miri on the small and huge-universe slices",
+    "technique": "runtime monitoring: online reference-model oracle, parameter-regime-directed generation, Miri on the small and huge-universe slices + coverage-guided legs (libFuzzer with AddressSanitizer / overflow checks) driving the same oracle",
     "assumptions": ["positions per vector <= ~70k", "m = 0 explored up to n = 2^24 (quick) / 2^27 (thorough)"],
 }
 PLANS["C02"]["require"]["thorough"] = PLANS["C02"]["require"]["quick"]
@@ -190,7 +190,7 @@ PLANS["C15"] = {
     "level_text": ("exploration: multiset sparse vectors are built exhaustively at small scope and by directed generation, and every present-value query, both set-bit iterator directions and both bit "
                    "iterator directions are compared with a sorted-list-with-duplicates model"),
     "level_note": "trusts the sorted-list model; semantics of zero-side queries on multisets are not defined by the library and are not checked",
-    "technique": "runtime monitoring: online reference-model oracle, exhaustive small scope + directed duplicates",
+    "technique": "runtime monitoring: online reference-model oracle, exhaustive small scope + directed duplicates + coverage-guided legs (libFuzzer with AddressSanitizer / overflow checks) driving the same oracle",
     "assumptions": [],
 }
 
@@ -210,7 +210,7 @@ PLANS["C04"] = {
     "level_text": ("exploration: wavelet matrices built from exhaustive small vectors and shaped generated vectors are queried through every Vector/Access/VectorIndex method and the core mapping while a plain "
                    "Vec<u64> model (filters and a stable sort by reversed bits) checks every answer"),
     "level_note": "trusts the Vec<u64> model; values and indices on long vectors are sampled",
-    "technique": "runtime monitoring: online reference-model oracle, exhaustive small scope + shaped generation",
+    "technique": "runtime monitoring: online reference-model oracle, exhaustive small scope + shaped generation + coverage-guided legs (libFuzzer with AddressSanitizer / overflow checks) driving the same oracle",
     "assumptions": ["alphabets up to 2^16 symbols; lengths up to 5000"],
 }
 
@@ -251,7 +251,7 @@ PLANS["C10"] = {
     "level_text": ("exploration with an exhaustive core: all call histories up to depth L on all small instances for every iterator type and starting point, plus long random histories, each step checked against a "
                    "double-ended queue of the reference items"),
     "level_note": "trusts the VecDeque model; histories longer than L are sampled",
-    "technique": "runtime monitoring: history + executable sequential model (deque), exhaustive at small scope",
+    "technique": "runtime monitoring: history + executable sequential model (deque), exhaustive at small scope + coverage-guided legs (libFuzzer with AddressSanitizer / overflow checks) driving the same oracle",
     "assumptions": [],
 }
 PLANS["C10"]["require"]["thorough"] = PLANS["C10"]["require"]["quick"]
@@ -289,7 +289,7 @@ PLANS["C16"] = {
     "exhaustive_note": "parts sparse_exh / rl_exh enumerate every call sequence up to the stated depth over the stated alphabets; the random parts are samples",
     "level_text": "exploration with an exhaustive core: builder call histories (valid and invalid) run against the real builders while a state machine checks acceptance, every observable and the converted vector",
     "level_note": "trusts the two small state machines; the documented panic of set()/extend() is treated as the refusal",
-    "technique": "runtime monitoring: history + executable sequential model, observables snapshotted around every call",
+    "technique": "runtime monitoring: history + executable sequential model, observables snapshotted around every call + coverage-guided legs (libFuzzer with AddressSanitizer / overflow checks) driving the same oracle",
     "assumptions": [],
 }
 
@@ -325,7 +325,7 @@ PLANS["C12"] = {
     "require": {"quick": [("probe", "flush_safe_carry", 1), ("probe", "flush_safe_exact", 1), ("probe", "flush_final_empty", 1), ("probe", "flush_final_nonempty", 1)]},
     "level_text": "exploration: writer configurations aimed at every flush regime run against real files; the file left behind is compared byte for byte with the in-memory serialization; flush-regime probes must all fire",
     "level_note": "file system is the sandbox's tmp directory under /verif/.cache; the oracle is the in-memory vector fed the same pushes",
-    "technique": "runtime monitoring: differential oracle (file vs in-memory serialization) + flush-regime probes",
+    "technique": "runtime monitoring: differential oracle (file vs in-memory serialization) + flush-regime probes + coverage-guided legs (libFuzzer with AddressSanitizer / overflow checks) driving the same oracle",
     "assumptions": [],
 }
 PLANS["C12"]["require"]["thorough"] = PLANS["C12"]["require"]["quick"]
@@ -484,7 +484,7 @@ PLANS["C08"] = {
     "level_text": ("exploration under instrumentation: hostile sequences of safe calls run in eight build configurations; Miri (overflow checks on and off, with and without BMI2), AddressSanitizer, valgrind memcheck "
                    "and the feature-guarded bounds hooks watch for any access outside a structure's buffers; a clean run means no report on the executions produced, not memory safety"),
     "level_note": "exactly the limits of the tools: ASan/memcheck miss strays that land in live memory (hence the hooks), Miri cannot run the mmap paths (hence ASan/valgrind there); nothing is said about call sequences not generated",
-    "technique": "runtime monitoring with sanitizers: Miri, AddressSanitizer, valgrind memcheck, bounds hooks, signal monitor over a hostile safe-API workload",
+    "technique": "runtime monitoring with sanitizers: Miri, AddressSanitizer, valgrind memcheck, bounds hooks, signal monitor over a hostile safe-API workload + coverage-guided legs (libFuzzer with AddressSanitizer / overflow checks) driving the same oracle",
     "assumptions": ["allocation sizes are capped by the workload (an allocation failure aborts and proves nothing about memory safety)"],
 }
 PLANS["C08"]["require"]["thorough"] = PLANS["C08"]["require"]["quick"]
